@@ -4,6 +4,7 @@
   so they apply to a state the caller edited; what is added here is that erasing an id from both maps of a protocol really makes the id
   unknown on canonical maps (`StateWf`, an invariant of every history: `C06_state_wf`), keeps the maps canonical, touches no other id
   and not the other protocol — and hence that data for the forgotten id is not decoded, whatever was decoded with it before.
+  Second part: `adopt` (the caller copies the public maps of another parser): the parser then decodes exactly as the donor does.
 -/
 import NetflowModel.Props.C07
 import NetflowModel.Props.C06
@@ -69,5 +70,31 @@ example : StateWf ({ v9T := [(256, { id := 256, fieldCount := 1, fields := [{ ty
   constructor
   · simp [StateWf, amSorted]
   · rfl
+
+/-! ### `adopt`: the caller copies the public maps of another parser -/
+
+/-- the caller's `a.v9_parser.templates = b.v9_parser.templates.clone(); a.v9_parser.options_templates = …` -/
+def adoptV9 (dst src : PState) : PState := { dst with v9T := src.v9T, v9O := src.v9O }
+/-- the same for the IPFIX maps -/
+def adoptIp (dst src : PState) : PState := { dst with ipT := src.ipT, ipO := src.ipO }
+
+/-- **after `adopt` (V9)** the parser decodes every V9 packet exactly as the donor does — whatever it had decoded, cached or derived
+    before — and its V9 caches evolve as the donor's do (C06: the decoder reads only the two public maps; there is no other state) -/
+theorem C06_adopt_v9 (c : Config) (dst src : PState) (i : Bytes) :
+    (parseV9 c (adoptV9 dst src) i).2 = (parseV9 c src i).2 ∧
+    AgreeV9 (parseV9 c (adoptV9 dst src) i).1 (parseV9 c src i).1 :=
+  C06_v9_reads_only_v9 c (adoptV9 dst src) src i ⟨rfl, rfl⟩
+
+/-- **after `adopt` (IPFIX)** -/
+theorem C06_adopt_ipfix (c : Config) (dst src : PState) (i : Bytes) :
+    (parseIpfix c (adoptIp dst src) i).2 = (parseIpfix c src i).2 ∧
+    AgreeIp (parseIpfix c (adoptIp dst src) i).1 (parseIpfix c src i).1 :=
+  C06_ipfix_reads_only_ipfix c (adoptIp dst src) src i ⟨rfl, rfl⟩
+
+/-- `adopt` leaves the other protocol's maps alone and keeps canonical maps canonical -/
+theorem C06_adopt_scoped (dst src : PState) (hd : StateWf dst) (hs : StateWf src) :
+    (adoptV9 dst src).ipT = dst.ipT ∧ (adoptV9 dst src).ipO = dst.ipO ∧ (adoptIp dst src).v9T = dst.v9T ∧ (adoptIp dst src).v9O = dst.v9O ∧
+    StateWf (adoptV9 dst src) ∧ StateWf (adoptIp dst src) :=
+  ⟨rfl, rfl, rfl, rfl, ⟨hs.1, hs.2.1, hd.2.2.1, hd.2.2.2⟩, ⟨hd.1, hd.2.1, hs.2.2.1, hs.2.2.2⟩⟩
 
 end Netflow.Props
